@@ -224,7 +224,24 @@ func genC08(t *rapid.T) c08Case {
 		toks = append(toks, mt[i]...)
 	}
 	c := c08Case{Kind: "valid", Flip: rapid.Bool().Draw(t, "flip")}
-	switch rapid.IntRange(0, 5).Draw(t, "variant") {
+	switch rapid.IntRange(0, 6).Draw(t, "variant") {
+	case 6: // one variable takes the name of another one (anywhere in the text, in an item of any type)
+		var at []int
+		for i, tk := range toks {
+			if tk.Kind == "var" {
+				at = append(at, i)
+			}
+		}
+		if len(at) >= 2 {
+			i := rapid.IntRange(0, len(at)-1).Draw(t, "from")
+			j := rapid.IntRange(0, len(at)-2).Draw(t, "to")
+			if j >= i {
+				j++
+			}
+			toks = append([]model.Tok(nil), toks...)
+			toks[at[j]].Text = toks[at[i]].Text
+			c.Kind = "variable-name-reused"
+		}
 	case 3: // drop a token
 		i := rapid.IntRange(0, len(toks)-1).Draw(t, "at")
 		toks = append(append([]model.Tok(nil), toks[:i]...), toks[i+1:]...)
